@@ -56,7 +56,7 @@ impl Prop for C14 {
         // a very long history of tiny samples with maximal durations: the summed media duration
         // times 10^6 passes 2^64 (4295+ samples) - cheap to mux, and only the accessors are read
         if r.chance(1, 150) {
-            let ts = *r.pick(&[2u32, 1000, 90000, 48000]);
+            let ts = *r.pick(&[1u32, 1, 2, 1000, 90000, 48000]);
             let mut ops = vec![Op::AddTrack(TrackCfg { timescale: ts, ..match sc.ops.iter().find_map(|op| if let Op::AddTrack(t) = op { Some(t.clone()) } else { None }) {
                 Some(t) if t.timescale > 0 => t,
                 _ => gen_track_cfg(&mut r, &o, &[Kind::Aac, Kind::Ttxt, Kind::Hevc]),
